@@ -7,6 +7,10 @@ import PyElf.Spec.DwarfStructs
 import PyElf.Model.Env
 import PyElf.Driver.C16
 import PyElf.Driver.Tie
+import PyElf.Driver.C05
+import PyElf.Driver.C07
+import PyElf.Driver.C15
+import PyElf.Driver.C17
 import PyElf.Driver.C03
 import PyElf.Driver.C08
 import PyElf.Driver.C14
@@ -64,6 +68,10 @@ def handle (req : Json) : Except String Json := do
   | "con" => handleCon req
   | "C16" => Driver.C16.handle req
   | "tie" => Driver.Tie.handle req
+  | "C05" => Driver.C05.handle req
+  | "C07" => Driver.C07.handle req
+  | "C15" => Driver.C15.handle req
+  | "C17" => Driver.C17.handle req
   | "C03" => Driver.C03.handle req
   | "C08" => Driver.C08.handle req
   | "C14" => Driver.C14.handle req
